@@ -61,17 +61,153 @@ Proof.
   - exists r. rewrite Z.mul_1_l. auto.
 Qed.
 
-(* decimal literal [+-]<digits> *)
-Theorem from_dec_correct sg cs : sign_ok sg -> cs <> [] -> Forall (char_ok 10) cs ->
-  exists x, bn_from_dec (sg ++ cs) = Ok x /\ wf x /\ uval x = (sign_val sg * dval 10 (map cval cs)) mod Wfull.
-Proof. intros. unfold bn_from_dec. apply frombase_correct; auto. lia. Qed.
-
 (* ---- integers to text ---- *)
 Theorem todecint_correct v : wf v ->
   exists ds, todecint v = Ok ((if sval v <? 0 then [45] else []) ++ map digit_char ds) /\ canon 10 ds (Z.abs (sval v)).
 Proof.
   intros Hv. destruct (tobase_correct v 10 (Some false) Hv ltac:(lia)) as (ds & A & B). cbn zeta in *.
   exists ds. unfold todecint. unfold tobase_neg, tobase_val in *. cbn [negb andb] in *. auto.
+Qed.
+
+(* ---- decimal literal: exact within the accepted range, a float beyond ---- *)
+Lemma str_eqb_spec a : forall b, str_eqb a b = true <-> a = b.
+Proof.
+  induction a as [|x a IH]; intros [|y b]; cbn [str_eqb]; try (split; [discriminate | congruence]); [tauto|].
+  rewrite andb_true_iff, IH, Z.eqb_eq. split; [intros (-> & ->); reflexivity | intros E; injection E; auto].
+Qed.
+
+Definition dec_check (c : Z) : bool :=
+  negb (is_alnum c && (char_digit c <? 10)) || (is_digit c && (c =? digit_char (char_digit c))).
+Lemma dec_check_all : forallb dec_check (map Z.of_nat (seq 48 75)) = true.
+Proof. vm_compute. reflexivity. Qed.
+
+Lemma char_ok10 c : char_ok 10 c -> is_digit c = true /\ c = digit_char (cval c) /\ (c = 48 <-> cval c = 0).
+Proof.
+  intros (A & B).
+  assert (R : 48 <= c <= 122) by (unfold is_alnum, is_digit, is_upper, is_lower in A; lia).
+  pose proof dec_check_all as X. rewrite forallb_forall in X.
+  specialize (X c ltac:(apply in_map_iff; exists (Z.to_nat c); split; [lia | apply in_seq; lia])).
+  unfold dec_check in X. rewrite A in X. destruct (char_digit c <? 10) eqn:E; [|lia]. cbn [andb negb orb] in X.
+  apply andb_prop in X. destruct X as (X1 & X2). apply Z.eqb_eq in X2. unfold cval.
+  split; [exact X1|]. split; [exact X2|].
+  assert (Ecd : char_digit c = c - 48) by (unfold char_digit; rewrite X1; reflexivity). lia.
+Qed.
+
+Lemma dval_cons base d r : dval base (d :: r) = d * base ^ Z.of_nat (length r) + dval base r.
+Proof. change (dval base (d :: r)) with (dval_acc base r (0 * base + d)). rewrite dval_acc_shift. ring. Qed.
+
+(* canonical digit lists are unique *)
+Lemma dval_inj_len base : 2 <= base -> forall a b, length a = length b -> digits_ok base a -> digits_ok base b ->
+  dval base a = dval base b -> a = b.
+Proof.
+  intros Hb. induction a as [|x a IH]; intros [|y b] L Ha Hb' E; try discriminate; [reflexivity|].
+  inversion Ha; inversion Hb'; subst. injection L as L. rewrite !dval_cons, L in E.
+  pose proof (dval_bound base a ltac:(lia) ltac:(assumption)) as Ra. pose proof (dval_bound base b ltac:(lia) ltac:(assumption)) as Rb.
+  rewrite L in Ra. set (P := base ^ Z.of_nat (length b)) in *. assert (0 < P) by (subst P; apply Z.pow_pos_nonneg; lia).
+  assert (x = y) by nia. subst y. f_equal. apply IH; auto. lia.
+Qed.
+
+Lemma canon_len base ds v : 2 <= base -> canon base ds v -> v <> 0 ->
+  base ^ (Z.of_nat (length ds) - 1) <= v < base ^ Z.of_nat (length ds).
+Proof.
+  intros Hb (C1 & C2 & C3 & C4 & C5) Hv. specialize (C5 Hv). destruct ds as [|d r]; [congruence|]. cbn [hd] in C5.
+  inversion C1; subst. pose proof (dval_bound base (d :: r) ltac:(lia) C1) as R. rewrite dval_cons in *.
+  pose proof (dval_bound base r ltac:(lia) ltac:(assumption)). cbn [length]. rewrite Nat2Z.inj_succ.
+  replace (Z.succ (Z.of_nat (length r)) - 1) with (Z.of_nat (length r)) by lia.
+  assert (0 < base ^ Z.of_nat (length r)) by (apply Z.pow_pos_nonneg; lia).
+  cbn [length] in R. rewrite Nat2Z.inj_succ in R. split; [nia | lia].
+Qed.
+
+Lemma canon_unique base a b v : 2 <= base -> canon base a v -> canon base b v -> a = b.
+Proof.
+  intros Hb Ca Cb. destruct (Z.eq_dec v 0) as [E|E].
+  - destruct Ca as (_ & _ & _ & A & _). destruct Cb as (_ & _ & _ & B & _). rewrite (A E), (B E). reflexivity.
+  - pose proof (canon_len base a v Hb Ca E) as La. pose proof (canon_len base b v Hb Cb E) as Lb.
+    assert (L : length a = length b).
+    { destruct (Nat.lt_trichotomy (length a) (length b)) as [H|[H|H]]; [exfalso | exact H | exfalso].
+      - assert (base ^ Z.of_nat (length a) <= base ^ (Z.of_nat (length b) - 1)) by (apply Z.pow_le_mono_r; lia). lia.
+      - assert (base ^ Z.of_nat (length b) <= base ^ (Z.of_nat (length a) - 1)) by (apply Z.pow_le_mono_r; lia). lia. }
+    destruct Ca as (A1 & A2 & _). destruct Cb as (B1 & B2 & _). apply (dval_inj_len base Hb a b L A1 B1). congruence.
+Qed.
+
+(* the capture of '^0*(%d+)$' is the canonical decimal form of the digits read *)
+Lemma strip0_canon cs : cs <> [] -> Forall (char_ok 10) cs ->
+  exists ds, strip0 cs = map digit_char ds /\ canon 10 ds (dval 10 (map cval cs)).
+Proof.
+  induction cs as [|c r IH]; intros Hne Hcs; [congruence|]. inversion Hcs as [|? ? Hc Hr]; subst.
+  destruct (char_ok10 c Hc) as (D1 & D2 & D3). destruct Hc as (A & B). change (char_digit c) with (cval c) in B.
+  destruct r as [|c2 r'].
+  - exists [cval c]. cbn [strip0 map]. split; [f_equal; exact D2|].
+    unfold canon, digits_ok, dval. cbn [dval_acc hd]. split; [constructor; [lia | constructor]|]. split; [ring|].
+    split; [discriminate|]. split; [intros E0; f_equal; lia | intros; lia].
+  - change (strip0 (c :: c2 :: r')) with (if c =? 48 then strip0 (c2 :: r') else c :: c2 :: r').
+    change (map cval (c :: c2 :: r')) with (cval c :: map cval (c2 :: r')). rewrite dval_cons.
+    destruct (c =? 48) eqn:E.
+    + apply Z.eqb_eq in E. rewrite (proj1 D3 E), Z.mul_0_l, Z.add_0_l. apply IH; [discriminate | exact Hr].
+    + assert (Hd : cval c <> 0) by (intro X; apply D3 in X; lia).
+      exists (cval c :: map cval (c2 :: r')).
+      assert (Hok : digits_ok 10 (map cval (c :: c2 :: r'))) by (apply chars_ok_digits; exact Hcs).
+      split.
+      { change (cval c :: map cval (c2 :: r')) with (map cval (c :: c2 :: r')).
+        clear - Hcs. induction Hcs as [|x l Hx Hl IHl]; cbn [map]; [reflexivity|]. destruct (char_ok10 x Hx) as (_ & E & _).
+        rewrite <- E, <- IHl. reflexivity. }
+      pose proof (dval_bound 10 (map cval (c2 :: r')) ltac:(lia) (chars_ok_digits _ _ Hr)) as Rr.
+      assert (0 < 10 ^ Z.of_nat (length (map cval (c2 :: r')))) by (apply Z.pow_pos_nonneg; lia).
+      split; [exact Hok|]. split; [rewrite dval_cons; reflexivity|].
+      split; [discriminate|]. cbn [hd]. split; [intros; nia | intros _; exact Hd].
+Qed.
+
+Lemma dec_digits_spec cs : cs <> [] -> Forall (char_ok 10) cs -> dec_digits cs = Some (strip0 cs).
+Proof.
+  intros Hne Hcs. unfold dec_digits. destruct cs; [congruence|].
+  assert (E : forallb is_digit (z :: cs) = true).
+  { apply forallb_forall. intros c Hc. rewrite Forall_forall in Hcs. exact (proj1 (char_ok10 c (Hcs c Hc))). }
+  rewrite E. reflexivity.
+Qed.
+
+Lemma dec_digits_signed sg cs : sg = [45] \/ sg = [43] -> dec_digits (sg ++ cs) = None.
+Proof. intros [-> | ->]; reflexivity. Qed.
+
+(* unsigned decimal literal: an exact integer below 2^(BITS-1) (no wrap is possible), a float from there on *)
+Theorem from_dec_unsigned cs : cs <> [] -> Forall (char_ok 10) cs ->
+  let v := dval 10 (map cval cs) in
+  (v < Wfull / 2 -> exists x, bn_from_dec cs = Ok (LInt x) /\ wf x /\ uval x = v /\ sval x = v) /\
+  (Wfull / 2 <= v -> bn_from_dec cs = Ok LFloat).
+Proof.
+  intros Hne Hcs. cbn zeta. set (v := dval 10 (map cval cs)).
+  destruct (frombase_correct 10 [] cs ltac:(lia) (or_introl eq_refl) Hne Hcs) as (n & A & B & C).
+  cbn [app sign_val] in A, C. rewrite Z.mul_1_l in C. fold v in C.
+  unfold bn_from_dec. rewrite A, (dec_digits_spec cs Hne Hcs).
+  destruct (todecint_correct n B) as (ds & T & Cn). rewrite T.
+  destruct (strip0_canon cs Hne Hcs) as (ds' & S & Cs). fold v in Cs. rewrite S.
+  pose proof (dval_bound 10 (map cval cs) ltac:(lia) (chars_ok_digits _ _ Hcs)) as (Hv0 & _). fold v in Hv0.
+  pose proof Wfull_half as HH. pose proof Wfull_pos. pose proof (sval_range n B) as Rs.
+  split.
+  - intros Hlt. assert (Es : sval n = v) by (apply sval_of_mod; auto; lia).
+    rewrite Es in *. destruct (v <? 0) eqn:En; [lia|]. cbn [app]. rewrite Z.abs_eq in Cn by lia.
+    rewrite (canon_unique 10 ds ds' v ltac:(lia) Cn Cs).
+    rewrite (proj2 (str_eqb_spec _ _) eq_refl). exists n. split; [reflexivity|]. split; [exact B|].
+    split; [rewrite C; apply Z.mod_small; lia | exact Es].
+  - intros Hge. destruct (str_eqb _ _) eqn:Eq; [exfalso | reflexivity]. apply str_eqb_spec in Eq.
+    destruct Cs as (S1 & S2 & S3 & _). destruct Cn as (N1 & N2 & N3 & _).
+    destruct (sval n <? 0) eqn:En.
+    + (* a minus sign against a digit *)
+      destruct ds' as [|d0 r0]; [congruence|]. cbn [app map] in Eq. injection Eq as E0 _.
+      inversion S1; subst. unfold digit_char in E0. destruct (d0 <? 10); lia.
+    + cbn [app] in Eq.
+      assert (ds = ds').
+      { destruct (digit_chars_ok 10 ds ltac:(lia) N1) as (_ & K1). destruct (digit_chars_ok 10 ds' ltac:(lia) S1) as (_ & K2).
+        rewrite <- K1, <- K2, Eq. reflexivity. }
+      subst ds'. rewrite Z.abs_eq in N2 by lia. lia.
+Qed.
+
+(* a signed string is not subject to the test (it never reaches the reader from the compiler's lexer) and wraps *)
+Theorem from_dec_signed sg cs : sg = [45] \/ sg = [43] -> cs <> [] -> Forall (char_ok 10) cs ->
+  exists x, bn_from_dec (sg ++ cs) = Ok (LInt x) /\ wf x /\ uval x = (sign_val sg * dval 10 (map cval cs)) mod Wfull.
+Proof.
+  intros Hs Hne Hcs.
+  destruct (frombase_correct 10 sg cs ltac:(lia) ltac:(right; exact Hs) Hne Hcs) as (n & A & B & C).
+  unfold bn_from_dec. rewrite A, (dec_digits_signed sg cs Hs). exists n. auto.
 Qed.
 
 Definition wrapped_val (v : bint) (bits : option Z) : Z :=
@@ -116,6 +252,7 @@ Qed.
 Example text_example2 :
   todecint (frominteger (-255)) = Ok [45; 50; 53; 53] /\
   frombase [45; 50; 53; 53] 10 = Ok (frominteger (-255)) /\
+  bn_from_dec [50; 53; 53] = Ok (LInt (frominteger 255)) /\
   bn_from_hex true [70; 102] = Ok (frominteger (-255)) /\
   tohexint (frominteger (-1)) (Some 8) = Ok [102; 102].
 Proof. repeat split; vm_compute; reflexivity. Qed.
